@@ -152,6 +152,14 @@ fn oracle(s: &ProgScene<X>, t: &Trace) -> Vec<Violation> {
 
 #[allow(clippy::too_many_arguments)]
 fn make_case(via: StreamVia, prefill: &[u32], prefill_close: bool, feeder: &[Op], progs: &[Vec<A>], awaiter: bool, yields: u8, bound: Option<u32>) -> Case {
+    make_case_t(via, prefill, prefill_close, feeder, progs, awaiter, yields, bound, None)
+}
+
+/// `timeout`: the builder is given a handler timeout of 2 ticks (and this fail_on_timeout) and
+/// the first message and the first item need 5 ticks: the stream loop has no timeouts, nothing
+/// may be abandoned
+#[allow(clippy::too_many_arguments)]
+fn make_case_t(via: StreamVia, prefill: &[u32], prefill_close: bool, feeder: &[Op], progs: &[Vec<A>], awaiter: bool, yields: u8, bound: Option<u32>, timeout: Option<bool>) -> Case {
     let mut clients = vec![];
     for (c, p) in progs.iter().enumerate() {
         let ops: Vec<Op> = p
@@ -176,9 +184,15 @@ fn make_case(via: StreamVia, prefill: &[u32], prefill_close: bool, feeder: &[Op]
     let mut items: Vec<u32> = prefill.to_vec();
     items.extend(feeder.iter().filter_map(|o| if let Op::Feed(i) = o { Some(*i) } else { None }));
     let closes = prefill_close || feeder.iter().any(|o| matches!(o, Op::CloseStream));
-    let role = RoleCfg { default_work: Work { yields, ..Work::default() }, ..RoleCfg::default() };
+    let mut role = RoleCfg { default_work: Work { yields, ..Work::default() }, ..RoleCfg::default() };
+    let mut spawn = SpawnCfg::plain(Mailbox::U);
+    if let Some(fail) = timeout {
+        spawn.timeout = Some((2, fail));
+        role.work.push((msg_id(0, 0), Work { sleep: 5, ..Work::default() }));
+        role.work.push((71, Work { sleep: 5, ..Work::default() }));
+    }
     let desc = format!(
-        "stream via={via:?} prefill={prefill:?} close={prefill_close} feeder={feeder:?} awaiter={awaiter} yields={yields} progs={}",
+        "stream timeout={timeout:?} via={via:?} prefill={prefill:?} close={prefill_close} feeder={feeder:?} awaiter={awaiter} yields={yields} progs={}",
         progs.iter().map(|p| p.iter().map(|l| format!("{l:?}")).collect::<Vec<_>>().join(",")).collect::<Vec<_>>().join(" | ")
     );
     Case {
@@ -186,7 +200,7 @@ fn make_case(via: StreamVia, prefill: &[u32], prefill_close: bool, feeder: &[Op]
         exec: ExecCfg::default(),
         bound,
         scene: Box::new(ProgScene { variant: crate::progscene::current_variant(),
-            spawn: SpawnCfg::plain(Mailbox::U),
+            spawn,
             attach: Attach::Stream { via, prefill: prefill.to_vec(), close: prefill_close },
             roles: vec![role],
             clients,
@@ -256,6 +270,19 @@ fn cases(tier: Tier) -> Vec<Case> {
                         };
                         v.push(make_case(via, pre, false, feeder, &[p.clone()], stops, yields, None));
                     }
+                }
+            }
+        }
+    }
+    // the builder accepts a handler timeout for stream-attached actors too; the stream loop does
+    // not enforce one, so a slow message or item is simply handled to the end
+    for via in [StreamVia::BuildOnStream, StreamVia::BoundedOnStream(1)] {
+        for fail in [false, true] {
+            for p in seqs(&[A::Send, A::Call], 1) {
+                v.push(make_case_t(via, &[71], true, &[], &[p.clone()], true, 0, None, Some(fail)));
+                v.push(make_case_t(via, &[], false, &f(&[71, 72], true), &[p.clone()], true, 0, None, Some(fail)));
+                for q in seqs(&[A::Send, A::Call, A::Stop], 1) {
+                    v.push(make_case_t(via, &[71], false, &[], &[vec![p[0], q[0]]], true, 0, None, Some(fail)));
                 }
             }
         }
